@@ -363,7 +363,9 @@ func c19Matrix(f func(admitted, fallback bool, handler string)) {
 }
 
 var c19Bools = []bool{true, false}
-var c19Handlers = []string{"ok", "err", "panic"}
+// "errtyped": the handler fails with the framework's own error type carrying a client-error status (where the
+// framework has one; elsewhere it is a second plain failure)
+var c19Handlers = []string{"ok", "err", "panic", "errtyped"}
 
 func c19Name(ep string, admitted, fallback bool, handler string) string {
 	if c19PairTag != "" {
@@ -409,6 +411,8 @@ func c19FiberCase(t *testing.T, admitted, fallback bool, handler string) {
 	app.Get("/c19", func(ctx *fiber.Ctx) error {
 		c.handlerCalled()
 		switch handler {
+		case "errtyped":
+			return fiber.NewError(fiber.StatusBadRequest, "c19 typed handler error")
 		case "err":
 			return errors.New("c19 handler error")
 		case "panic":
